@@ -62,10 +62,9 @@ fn generate(seed: u64, tier: Tier, em: &mut Emitter) {
     sweep_grid(|n, parts, idx| {
         let mode = parts.map_or(Mode::Seq, Mode::Par);
         let progs = sweep_programs(parts.unwrap_or(0));
-        let per_point = if tier == Tier::Quick { 2 } else { progs.len() };
+        let per_point = if tier == Tier::Quick { 2 } else { 8 };
         for r in 0..per_point {
             let (shape, steps) = &progs[(idx * 7 + r * 53) % progs.len()];
-            let (shape, steps) = if tier == Tier::Quick { (shape, steps) } else { (&progs[r].0, &progs[r].1) };
             let src = sweep_src(*shape, n, idx + r, &mut rng);
             emit_prog(em, &src, steps, mode, true, &["sweep"]);
         }
@@ -82,8 +81,36 @@ fn generate(seed: u64, tier: Tier, em: &mut Emitter) {
             }
         }
     }
+    // empty streamed sources (an empty file has NO partition in parallel mode; a file of blank
+    // lines has empty partitions): exactly one element must still come out of a global combine
+    let empties = [
+        Src::Sharded(Shape::U, vec![], 0),
+        Src::Sharded(Shape::U, vec![vec![]], 1),
+        Src::Sharded(Shape::U, vec![vec![], vec![]], 2),
+        Src::Vec(Shape::U, vec![]),
+    ];
+    for src in &empties {
+        for c in [Cid::Count, Cid::Sum, Cid::TopK(2), Cid::Distinct, Cid::Gcd, Cid::Min] {
+            for lifted in [false, true] {
+                for f in [None, Some(1), Some(3)] {
+                    for mode in [Mode::Seq, Mode::Par(0), Mode::Par(3)] {
+                        if tier == Tier::Quick && lifted && f == Some(3) {
+                            continue;
+                        }
+                        emit_prog(em, src, &[Step::CombineGlobally(c.clone(), lifted, f)], mode, true,
+                                  &["sweep", "empty_source"]);
+                    }
+                }
+            }
+        }
+        for mode in [Mode::Seq, Mode::Par(0), Mode::Par(3)] {
+            emit_prog(em, src, &[Step::Distinct], mode, true, &["sweep", "empty_source"]);
+            emit_prog(em, src, &[Step::KeyBy(EFun::Id), Step::CombineValues(Cid::Sum)], mode, true,
+                      &["sweep", "empty_source"]);
+        }
+    }
     let mut rng = seed_mix(seed, 0xC05_0002);
-    let count = if tier == Tier::Quick { 1100 } else { 11000 };
+    let count = if tier == Tier::Quick { 1000 } else { 8000 };
     let mut made = 0;
     while made < count {
         let n = gen_len(&mut rng);
